@@ -66,13 +66,14 @@ End ListSpecs.
 
 (* ---- the items of a source ---- *)
 
-(* items of a script up to its first fatal error, transient errors erased *)
+(* items of a script up to its first fatal error, transient errors (and panics) erased *)
 Fixpoint script_den (evs : list sevent) : list Z :=
   match evs with
   | [] => []
   | EvItem x :: t => x :: script_den t
   | EvTransient _ :: t => script_den t
   | EvFatal _ :: _ => []
+  | EvPanic :: t => script_den t
   end.
 
 (* 0, 1, ..., n-1 *)
@@ -134,18 +135,41 @@ with dom_l (q : pl) : Prop :=
   end.
 Definition dom (p : pz + pl) : Prop := match p with inl p => dom_z p | inr q => dom_l q end.
 
+(* ---- panic-freedom: no callback (of a combinator) ever panics, no scripted source has an
+   EvPanic event.  Boolean, so that it can be computed on concrete pipelines. ---- *)
+Definition cb_panics (fl : failing) : bool :=
+  fail_panic fl && match fail_at fl with Some _ => true | None => false end.
+Definition ev_is_panic (e : sevent) : bool := match e with EvPanic => true | _ => false end.
+Definition script_nopanic (evs : list sevent) : bool := negb (existsb ev_is_panic evs).
+Definition src_nopanic (s : source) : bool :=
+  match s with SScript evs | SScriptNC evs => script_nopanic evs | _ => true end.
+Fixpoint no_panics_z (p : pz) : bool :=
+  match p with
+  | ZSrc _ s => src_nopanic s
+  | ZPeek p | ZCompact _ p | ZFirst _ p => no_panics_z p
+  | ZFilter _ fl p | ZMap _ fl p | ZWhile _ fl p => negb (cb_panics fl) && no_panics_z p
+  | ZFlatten ps | ZJoin ps => forallb no_panics_z ps
+  | ZFlattenSlices q => no_panics_l q
+  end
+with no_panics_l (q : pl) : bool :=
+  match q with LChunk _ p | LRuns _ _ p => no_panics_z p end.
+Definition no_panics (p : pz + pl) : bool :=
+  match p with inl p => no_panics_z p | inr q => no_panics_l q end.
+
 (* ---- fault-freedom ---- *)
 Fixpoint no_fatal (evs : list sevent) : Prop :=
   match evs with [] => True | EvFatal _ :: _ => False | _ :: t => no_fatal t end.
 Fixpoint no_transient (evs : list sevent) : Prop :=
   match evs with [] => True | EvTransient _ :: _ => False | _ :: t => no_transient t end.
 
-(* [okz ae p]: parameters in the documented domain, callbacks never fail, scripted sources have
-   no fatal error; with ae = false they have no transient error either (nothing can fail),
-   with ae = true any number of transient errors is allowed. *)
+(* [okz ae p]: parameters in the documented domain, callbacks never fail (neither by an error
+   nor by a panic), scripted sources have no fatal error and no panic; with ae = false they have
+   no transient error either (nothing can fail), with ae = true any number of transient errors
+   is allowed. *)
+Definition script_ok (evs : list sevent) : Prop := no_fatal evs /\ script_nopanic evs = true.
 Definition src_ok (ae : bool) (s : source) : Prop :=
   match s with
-  | SScript evs | SScriptNC evs => no_fatal evs /\ (ae = false -> no_transient evs)
+  | SScript evs | SScriptNC evs => script_ok evs /\ (ae = false -> no_transient evs)
   | _ => True
   end.
 Fixpoint okz (ae : bool) (p : pz) : Prop :=
@@ -257,7 +281,9 @@ Fixpoint legal_until (C : list Z) (l : list item) (rs : list robs) : Prop :=
   end.
 
 (* fault codes and the fault-free version of a pipeline: scripts continue with k instead of
-   their first fatal error, callbacks never fail *)
+   their first fatal error, callbacks never return an error.  Panics are no faults in this sense
+   and stay where they are: a callback that panics keeps its record, EvPanic events stay in the
+   scripts. *)
 Fixpoint cut_with (k : list sevent) (evs : list sevent) : list sevent :=
   match evs with
   | [] => []
@@ -271,7 +297,9 @@ Fixpoint fatal_codes (evs : list sevent) : list Z :=
   | _ :: t => fatal_codes t
   end.
 Definition cb_codes (fl : failing) : list Z :=
-  match fail_at fl with Some _ => [fail_err fl] | None => [] end.
+  if fail_panic fl then []
+  else match fail_at fl with Some _ => [fail_err fl] | None => [] end.
+Definition scrub_fl (fl : failing) : failing := if fail_panic fl then fl else never_fails.
 
 Definition src_scrub (k : list sevent) (s : source) : source :=
   match s with
@@ -287,12 +315,12 @@ Fixpoint pz_scrub (k : list sevent) (p : pz) : pz :=
   | ZSrc id s => ZSrc id (src_scrub k s)
   | ZPeek p => ZPeek (pz_scrub k p)
   | ZCompact r p => ZCompact r (pz_scrub k p)
-  | ZFilter f _ p => ZFilter f never_fails (pz_scrub k p)
+  | ZFilter f fl p => ZFilter f (scrub_fl fl) (pz_scrub k p)
   | ZFirst n p => ZFirst n (pz_scrub k p)
   | ZFlatten ps => ZFlatten (map (pz_scrub k) ps)
   | ZJoin ps => ZJoin (map (pz_scrub k) ps)
-  | ZMap f _ p => ZMap f never_fails (pz_scrub k p)
-  | ZWhile f _ p => ZWhile f never_fails (pz_scrub k p)
+  | ZMap f fl p => ZMap f (scrub_fl fl) (pz_scrub k p)
+  | ZWhile f fl p => ZWhile f (scrub_fl fl) (pz_scrub k p)
   | ZFlattenSlices q => ZFlattenSlices (pl_scrub k q)
   end
 with pl_scrub (k : list sevent) (q : pl) : pl :=
